@@ -100,6 +100,11 @@ def _run_model_one(drv, case):
     if rec.get("raise"):
         return {"raise": rec["raise"], "stage": "init"}
     prog = su.programs(case)[0]
+    if case.get("Nrep"):
+        # repetition i of a study = the single run whose F_rand is the draw of seed i
+        rows = [su.decode_model(drv.call(su.model_request(case, rec, prog=prog, Frand=su.recorded_frand(i), old=True,
+                                                          row_stride=10 ** 9))) for i in range(int(case["Nrep"]))]
+        return {"table": rows, "raise": next((m["raise"] for m in rows if m["raise"]), None)}
     fr = prog["Frand"] if prog.get("Frand") is not None else su.recorded_frand(0)
     r = drv.call(su.model_request(case, rec, prog=prog, Frand=fr, old=True, traces=True, row_stride=10 ** 9))
     m = su.decode_model(r)
@@ -126,6 +131,21 @@ def _compare_one(case, impl, model):
     run = impl["runs"][0]
     if model.get("is2D"):
         return su.compare_2d(case, run, model, arrays=False)
+    if "table" in model:
+        if (run["raise"] or None) != (model["raise"] or None):
+            return [f"study exception: impl {run['raise']} vs model {model['raise']}"]
+        if run["raise"]:
+            return dis
+        tab = run["snap"].get("results_table")
+        if not isinstance(tab, list) or len(tab) != len(model["table"]):
+            return [f"results table: impl {tab if not isinstance(tab, list) else len(tab)} rows vs model {len(model['table'])}"]
+        for i, (a, m) in enumerate(zip(tab, model["table"])):
+            for k, v in m["stats"].items():
+                if k in ("t_sol", "t_fr"):
+                    continue
+                if not close(a.get(k), v):
+                    dis.append(f"repetition {i} = single run of seed {i}: column {k} impl {a.get(k)!r} vs model {v!r}")
+        return dis[:6]
     if (run["raise"] or None) != (model["raise"] or None):
         # a different exception may be a tie of the stop decision
         if _is_tie(model):
@@ -232,11 +252,47 @@ def _reconstruct_E(case, impl, run, weights="simpson"):
     return list(np.cumsum(Kv * dt))
 
 
+def _predicates_table(case, impl, run):
+    """Nrep > 1: every row of the results table, column by label"""
+    out = []
+    site = f"_run_{case['dim']}"
+    tab = run["snap"].get("results_table")
+    if not isinstance(tab, list):
+        return out
+    Tl_C = su.T_eq_l_of(impl["const"]) - 273.15
+    for i, row in enumerate(tab):
+        if case["dim"] == "0D" or any(row.get(k) is None for k in ("T_nuc_min", "T_nuc_kin", "T_nuc_mean", "T_nuc_max")):
+            continue
+        mn, kin, mean, mx = row["T_nuc_min"], row["T_nuc_kin"], row["T_nuc_mean"], row["T_nuc_max"]
+        if not (mn <= mean + 1e-9 and mean <= mx + 1e-9):
+            out.append(Failure(clause="Tnuc_stats_order", key=f"Tnuc_stats_order|{site}|Nrep>1",
+                               detail=f"results table, repetition {i}: min {mn}, mean {mean}, max {mx}"))
+            break
+        if kin != 0.0 and not (mn <= kin + 1e-9 and kin <= Tl_C + 1e-9):
+            out.append(Failure(clause="Tnuc_kin_bounds", key=f"Tnuc_kin_bounds|{site}|Nrep>1",
+                               detail=f"results table, repetition {i}: min {mn}, kin {kin}, T_eq_l {Tl_C}"))
+            break
+    return out
+
+
 def _predicates_one(case, impl):
     out = []
     if impl.get("raise") or not impl.get("runs"):
         return out
     run = impl["runs"][0]
+    if case.get("Nrep") and not run.get("raise"):
+        out = _predicates_table(case, impl, run)
+        tab = run["snap"].get("results_table")
+        if isinstance(tab, list) and tab and all(v is not None for v in tab[-1].values()):
+            # the arrays on the object are those of the LAST repetition (seed Nrep-1): its row against them
+            last = dict(run, Frand=su.recorded_frand(int(case["Nrep"]) - 1))
+            last["snap"] = dict(run["snap"], results=tab[-1])
+            c1 = {k: v for k, v in case.items() if k != "Nrep"}
+            fs = _predicates_one(c1, dict(impl, runs=[last]))
+            for f in fs:
+                f["key"] += "|last-repetition"
+            out += fs
+        return out
     if run.get("raise") or case.get("cnTemp") is not None:
         return out
     dim = case["dim"]
@@ -488,8 +544,18 @@ def cases_reconfigure():
     return [a, b]
 
 
+def cases_nrep():
+    """a sequential 1D study: the results table row by row (row i = single run of seed i), column by label"""
+    h = 0.05
+    dt = su.dt_1d_default(h)
+    return [dict(dim="1D", config="shelf", height=h, k_s0=2000, t_tot=4900 * dt, start=20, stop=-50, rate=0.5,
+                 holds=None, cnTemp=None, Frand=None, frkind="real", Nrep=2, how="sequential", kind="Nrep=2")]
+
+
 def cases(rng, tier):
     yield su.jacket_case()
+    for c in cases_nrep():
+        yield c
     for c in cases_reconfigure():
         yield c
     n0, n1, nv, nn, n2 = (28, 12, 3, 4, 1) if tier == "quick" else (400, 150, 30, 20, 8)
